@@ -250,12 +250,7 @@ def gen_calls(rng, after_end, stats=None):
     def one():
         k = rng.weighted([("hyp", 3), ("prob", 2), ("seg", 3), ("nb", 3), ("al", 2), ("json", 3), ("nf", 1), ("cmn0", 1), ("cmn1", 1),
                           ("setcmn", 1), ("cfg", 1), ("get", 1), ("time", 1), ("ref", 1), ("lat", 2), ("lw", 2), ("aw0", 3),
-                          ("aw1", 6 if after_end else 0), ("refused", 7 if after_end else 0)])
-        if k == "refused":
-            op, kind = gen_refused(rng)
-            if stats is not None:
-                stats["cache:refused-grammar-generated:" + kind] = stats.get("cache:refused-grammar-generated:" + kind, 0) + 1
-            return op
+                          ("aw1", 6 if after_end else 0)])
         if k == "seg":
             return "seg" + str(rng.choice([0, 1, 2, 50]))
         if k == "nb":
@@ -283,12 +278,18 @@ def calls_case(rng, audios, stats=None):
     calls["end"] = gen_calls(rng, True, stats)
     if "aw1" not in calls["end"] and rng.chance(0.7):
         calls["end"] += f",aw1:{hx('_forward')}:{hx('F AO R W ER D')}" + rng.choice(["", ",hyp", ",nb1", ",lat"])
-    if not any(o.split(":")[0] in ("rjs", "rjf", "rfsg", "ral") for o in calls["end"].split(",")) and rng.chance(0.6):
-        # error / recovery path: a refused grammar between the two requests (alone, or followed by another query)
-        op, kind = gen_refused(rng)
+    # error / recovery path: grammar-setting calls the decoder REFUSES, spliced between the two requests after the end of the
+    # utterance (0-3 of them at random positions among the other calls; sometimes alone).  Drawn from a side stream derived
+    # from the generator state WITHOUT advancing it: the cases of every other family stay what they were for a given seed.
+    r2 = vlib.Rng(rng.s ^ 0x9E3779B97F4A7C15).fork()
+    nref = r2.weighted([(0, 2), (1, 5), (2, 2), (3, 1)])
+    ops = [] if (nref and r2.chance(0.2)) else calls["end"].split(",")
+    for _ in range(nref):
+        op, kind = gen_refused(r2)
         if stats is not None:
             stats["cache:refused-grammar-generated:" + kind] = stats.get("cache:refused-grammar-generated:" + kind, 0) + 1
-        calls["end"] = rng.choice([op, calls["end"] + "," + op, op + "," + calls["end"], calls["end"] + "," + op + rng.choice([",hyp", ",lat", ",seg2"])])
+        ops.insert(r2.below(len(ops) + 1), op)
+    calls["end"] = ",".join(ops)
     cs["calls"] = calls
     if rng.chance(0.5):
         cs["cfg"] = [o for o in cs["cfg"] if not o.startswith("bestpath")] + [rng.choice(["bestpath=no", "bestpath=yes"])]
